@@ -512,6 +512,11 @@ func theoryAxioms(all []*Term) []*Term {
 			ax = append(ax, Eq(App("blen", SInt, t), Add(BLen(t.Args[0]), BLen(t.Args[1]))))
 		case "scat":
 			ax = append(ax, Eq(App("slen", SInt, t), Add(SLen(t.Args[0]), SLen(t.Args[1]))))
+		case "sslice":
+			// the full slice is the string itself
+			ax = append(ax, Implies(And(Eq(t.Args[1], IntLit(0)), Eq(t.Args[2], SLen(t.Args[0]))), Eq(t, t.Args[0])))
+		case "bslice":
+			ax = append(ax, Implies(And(Eq(t.Args[1], IntLit(0)), Eq(t.Args[2], BLen(t.Args[0])), Neq(t.Args[0], BytesNil)), Eq(t, t.Args[0])))
 		}
 	}
 	return ax
